@@ -396,8 +396,53 @@ def r04_6(ctx: Ctx):
     ctx.floor(rid, 'rewriting paths of the local refinement', n2, 1)
 
 
+def r04_7(ctx: Ctx):
+    rid = 'R04.7'
+    ctx.rule(rid, 'point ownership: the point object of every search item the library creates is allocated by the '
+                  'library for that item (never a caller-supplied / default / module object), because the library '
+                  'rewrites trial points in place (local refinement) and the recorded value must stay the objective '
+                  'at the recorded point')
+    pta = ctx.pta
+    item = ctx.ix.cls('SearchDataItem')
+    pcls = ctx.ix.cls('Point')
+    roles = C.roles_of(ctx)
+    # objects the library writes through as a trial point (attribute store .floatVariables / element stores)
+    written = set()
+    wsites = []
+    for m in roles.mutations():
+        if m.init_self or not m.func.module.name.startswith(('iOpt.method', 'iOpt.solver')):
+            continue
+        if m.kind in ('attr', 'aug') and m.field in ('floatVariables', 'discreteVariables'):
+            written |= {o for o in m.bases}
+            wsites.append(m.loc())
+        elif m.kind in ('sub', 'mutcall', 'aug', 'del', 'inplace') and isinstance(m.base_expr, ast.Attribute) and \
+                m.base_expr.attr in ('floatVariables', 'discreteVariables'):
+            written |= set(ctx.pta.expr_pts(m.func, m.base_expr.value))
+            wsites.append(m.loc())
+    n = 0
+    for o in list(pta._objs.values()):
+        if o.kind != 'inst' or o.cls is None or not o.cls.is_subclass_of(item):
+            continue
+        if not o.site.startswith(('iOpt/method', 'iOpt/solver')):
+            continue
+        n += 1
+        pts = pta.read_field(o, 'point')
+        foreign = [x for x in pts if x.kind in ('ext_inst', 'param', 'field') or x.scope in ('external',) or
+                   x.is_singleton_scope]
+        hazard = [x for x in foreign if x in written or any(w.kind == 'ext_inst' and w.cls is pcls for w in written)]
+        ctx.check(not hazard, rid, f'item allocated at {o.site}', o.site.rsplit(':', 1)[0],
+                  'the item\'s point is an object allocated by the library for this item',
+                  f'the point of a search item is a caller-supplied / shared object ({[x.describe() for x in hazard[:2]]}) '
+                  f'and the library rewrites trial points in place at {sorted(set(wsites))[:3]}: the caller\'s object '
+                  f'(and every other trial or solver using it) changes with it, so a reported value no longer is the '
+                  f'objective at the reported point',
+                  key=f'{rid}::{o.site.split(":")[0]}::foreign-point::{hazard[0].site if hazard else ""}')
+    ctx.floor(rid, 'search items created by the library', n, 4)
+
+
 def check(ctx: Ctx):
-    for rid, fn in (('R04.1', r04_1), ('R04.2', r04_2_3), ('R04.4', r04_4), ('R04.5', r04_5), ('R04.6', r04_6)):
+    for rid, fn in (('R04.1', r04_1), ('R04.2', r04_2_3), ('R04.4', r04_4), ('R04.5', r04_5), ('R04.6', r04_6),
+                    ('R04.7', r04_7)):
         if C.want(ctx, rid) or (rid == 'R04.2' and C.want(ctx, 'R04.3')):
             fn(ctx)
     ctx.assume('Problem.Calculate returns the holder it was given with the value stored in it (decided under C15)')
